@@ -89,7 +89,7 @@ func (e c10Enc) fits(c c10Case) error {
 }
 
 type c10Case struct {
-	Fam   string `json:"fam"` // base | lex | opt | keyval | enc
+	Fam   string `json:"fam"` // base | lex | opt | keyval | enc | rsakey | modulus
 	Bc    string `json:"bc"`
 	Kt    string `json:"kt"`
 	Dm    string `json:"dm"`
@@ -101,6 +101,7 @@ type c10Case struct {
 	Opt   c10Opt `json:"opt"`  // optional children of EncryptionMethod the independent producer writes
 	Kv    string `json:"kv"`   // value class of the symmetric key
 	Enc   c10Enc `json:"enc"`  // how the package's encrypter is obtained and configured
+	Rsa   c10Rsa `json:"rsa"`  // the recipient's RSA key pair (round 7, c10_rcpt_test.go)
 }
 
 type c10Opt struct {
@@ -133,6 +134,7 @@ type c10Vec struct {
 	Refel   xeEl        `json:"refel"`
 	X509    []c11X509   `json:"x509"`   // X509Data of the levels of refel (data level, EncryptedKey)
 	Kparts  []xeKeyPart `json:"kparts"` // the value of the symmetric key, part by part
+	Rcpt    c10Rcpt     `json:"rcpt"`   // the recipient's key pair as the spec derives it from the case
 	Pred    struct {
 		Self    c10Out `json:"self"`
 		Pkg2ref c10Out `json:"pkg2ref"`
@@ -280,6 +282,7 @@ type c10Run struct {
 	PlainLen int
 	Fault    string // harness fault (family lex): the reference could not read its own element
 	Said     c10Said
+	RefKey   any // the key the independent implementation decrypts with, when it is not the value handed to the package
 }
 
 // c10Said is what the package's element announces: the identifiers of the data cipher and of the key transport, the
@@ -423,7 +426,11 @@ func (r *c10Run) pkgSide(c c10Case, encKey, decKey any) {
 		if cv, e := xeCipherValue(root); e == nil {
 			r.CvLen = len(cv)
 		}
-		if priv, ok := decKey.(*rsa.PrivateKey); ok {
+		refKey := decKey
+		if r.RefKey != nil {
+			refKey = r.RefKey
+		}
+		if priv, ok := refKey.(*rsa.PrivateKey); ok {
 			r.Said = c10ReadSaid(root, priv)
 		}
 		got, derr, pp, pmsg := pkgDecrypt(decKey, root)
@@ -433,7 +440,7 @@ func (r *c10Run) pkgSide(c c10Case, encKey, decKey any) {
 			r.NotImpl = string(ni)
 		}
 		root2, _, _ := reparse(el)
-		got, derr = refDecrypt(decKey, root2)
+		got, derr = refDecrypt(refKey, root2)
 		r.Obs["pkg2ref"] = c10Classify(false, "", got, derr, r.P)
 	}
 }
@@ -760,8 +767,14 @@ func TestC10(t *testing.T) {
 			rep.Break("bad vector: %v", err)
 			return
 		}
-		if (v.Class != "MustAccept" && !(v.Class == "DontCare" && (v.Case.Fam == "opt" || v.Case.Fam == "enc"))) || v.Req != "plaintext" {
+		if v.Class == "MustReject" && v.Req == "error" && v.Case.Fam == "modulus" && v.Case.Rsa.Mod == "short" {
+			// the one rejecting class: a session key that cannot be wrapped for the recipient's modulus
+		} else if (v.Class != "MustAccept" && !(v.Class == "DontCare" && (v.Case.Fam == "opt" || v.Case.Fam == "enc" || v.Case.Fam == "rsakey"))) || v.Req != "plaintext" {
 			rep.Break("unexpected class %q in a C10 vector of family %s", v.Class, v.Case.Fam)
+			return
+		}
+		if err := v.rcptFits(); err != nil {
+			rep.Break("vector of family %s: %v", v.Case.Fam, err)
 			return
 		}
 		if err := v.Case.Enc.fits(v.Case); err != nil {
@@ -778,6 +791,8 @@ func TestC10(t *testing.T) {
 			ck = "keyval/" + ck + "/" + v.Case.Kv
 		case "enc":
 			ck = "enc/" + ck + "/" + v.Case.Enc.name()
+		case "rsakey", "modulus":
+			ck = v.Case.Fam + "/" + ck + "/" + v.Case.Rsa.name()
 		}
 		if first, ok := byCase[ck]; ok {
 			first.alt = append(first.alt, v)
@@ -802,7 +817,7 @@ func TestC10(t *testing.T) {
 
 	// family "lex" is run and judged on its own (below): the block-cipher / key-transport layers are judged on
 	// the package's own lexical form first
-	var lexVecs, optVecs, kvVecs, encVecs []*c10Vec
+	var lexVecs, optVecs, kvVecs, encVecs, rcptVecs []*c10Vec
 	{
 		var base []*c10Vec
 		for _, v := range vecs {
@@ -815,6 +830,8 @@ func TestC10(t *testing.T) {
 				kvVecs = append(kvVecs, v)
 			case "enc":
 				encVecs = append(encVecs, v)
+			case "rsakey", "modulus":
+				rcptVecs = append(rcptVecs, v)
 			default:
 				base = append(base, v)
 			}
@@ -1392,6 +1409,14 @@ func TestC10(t *testing.T) {
 		rep.Break("vacuous: no MustAccept case of family enc (the encrypter as a configured value)")
 	}
 
+	// ---- families "rsakey" / "modulus": the recipient's RSA key pair (c10_rcpt_test.go)
+	{
+		a, d := c10JudgeRcpt(rep, rcptVecs, agrees, func(c c10Case, dir string) bool {
+			return ktFail[c10KtName(c)][dir] || directFail[cell{c.Bc, dir, c.Nonce}][c.Plen]
+		})
+		agree, disagree = agree+a, disagree+d
+	}
+
 	// ---- concurrent decryption over the shared decrypter registry (spec/XmlEncConc.tla)
 	c10Concurrent(rep)
 
@@ -1406,7 +1431,7 @@ func TestC10(t *testing.T) {
 	if rep.Classes["MustAccept"] == 0 {
 		rep.Break("vacuous: no MustAccept cases")
 	}
-	rep.Note("C10's statement has no rejecting clause: all cases are MustAccept; rejection of malformed input is C11")
+	rep.Note("C10's statement has no rejecting clause for ciphertexts: all decryption cases are MustAccept, rejection of malformed input is C11; the one MustReject class is Encrypt with a session key that cannot be wrapped for the recipient's modulus (family modulus, one octet short)")
 }
 
 func c10FieldWord(set string) string {
@@ -1493,6 +1518,8 @@ func init() {
 			run := c10ExecuteEnc(r.Case, newRand("replay"), r.Plen)
 			o := run.Obs[r.Dir]
 			return o.K != "plaintext", o.K + " " + o.Detail
+		case "rcpt":
+			return c10ReplayRcpt(t, r.Case, r.Dir)
 		case "concurrent":
 			return c10ConcurrentReplay(t, raw)
 		case "kt":
